@@ -693,6 +693,27 @@ func TestMatrix(t *testing.T) {
 		r.Eval(true, vf.Hash(sc.Files), "decl-alone")
 		r.JudgeNoFatal(sc, check(sc))
 	}
+	// rules the schema language defines (j5.schema.v1 Rules messages) that the
+	// model-based cells above do not render: written out as text
+	for _, rc := range []struct{ feature, body string }{
+		{"float.rules", "field value float:FLOAT64 {\n\t\trules.minimum = 1.5\n\t}"},
+		{"float.rules", "field value float:FLOAT32 {\n\t\trules.maximum = 10\n\t\trules.exclusiveMaximum = true\n\t}"},
+		{"timestamp.rules", "field value timestamp {\n\t\trules.minimum = \"2020-01-01T00:00:00Z\"\n\t}"},
+		{"integer.rules.multipleOf", "field value integer:INT64 {\n\t\trules.multipleOf = 5\n\t}"},
+		{"object.rules.minProperties", "field value object:Other {\n\t\trules.minProperties = 1\n\t}\n\tfield other object:Other"},
+	} {
+		text := "package cell.matrix.v1\n\nobject Thing {\n\t" + rc.body + "\n}\n"
+		if strings.Contains(rc.body, "Other") {
+			text += "\nobject Other {\n\tfield x string\n}\n"
+		}
+		// float and timestamp rules are not in the documented language (README) and
+		// the compiler says so ("TODO: float rules not implemented"): only totality
+		// (a positioned error, no panic) is asked of them, not acceptance
+		valid := !strings.HasPrefix(rc.feature, "float.") && !strings.HasPrefix(rc.feature, "timestamp.")
+		sc := srcCase{Files: map[string]string{"cell/matrix/v1/main.j5s": text}, Valid: valid, What: "matrix:" + rc.feature}
+		r.Eval(true, vf.Hash(sc.Files), "raw-cell")
+		r.JudgeNoFatal(sc, check(sc))
+	}
 	r.SetExhaustive()
 	r.Note("%d field cells + %d single declarations", len(cells), len(alone))
 }
